@@ -81,6 +81,9 @@ ASSUMPTIONS = [
     "file: both are counted as labels, not failures (the statement does not speak about them); likewise an exception "
     "from porcelain.reset(hard) or from a dirty switch that is not a TypeError/UnicodeError/KeyError/... counts as a refusal",
     "symlink loops are out of the generated domain (a scenario that creates one ends there)",
+    "porcelain.add(paths=[p]) is never given a symlink that points to a directory (dulwich's tests pin that it scans the "
+    "link like a directory); WorkTree.stage is given file-level paths only; WorkTree.unstage may differ from `git reset "
+    "-- p` on entries below p/",
 ]
 
 
@@ -1031,7 +1034,9 @@ class Runner:
         if name == "stage":
             return all((p in I or p in W) and p not in dirs for p in op[1])
         if name == "add":
-            return all(p in I or p in W or p in dirs for p in op[1])
+            # porcelain.add(paths=[link]) deliberately scans a symlink that points to a directory (pinned by dulwich's own
+            # tests test_add_symlink_to_directory_inside_repo / _absolute_to_system): not git's behaviour, out of the domain
+            return all((p in I or p in W or p in dirs) and self._wkind(p) != "link-to-dir" for p in op[1])
         if name == "unstage":
             return all(p in I or p in H for p in op[1])
         if name == "rm_cached":
@@ -1197,6 +1202,8 @@ def resolve(run: Runner, aop, universe, names):
             cands = [p for p in cands if p not in run.dirs]  # WorkTree.stage is given file-level paths only
         if name == "add" and dirs and s3 % 4 == 0:
             cands = dirs
+        if name == "add":
+            cands = [p for p in cands if run._wkind(p) != "link-to-dir"]  # see Runner.in_domain
         p = pick(cands, s1)
         if p is not None:
             ps = [p]
